@@ -84,6 +84,10 @@ partial def loop (h : IO.FS.Stream) : IO Unit := do
     let dangling := (r.2.1.bufs ++ r.2.1.cache).filter (fun b => !(r.2.2.live.contains b))
     let s := if dangling.isEmpty then r.2.2 else { r.2.2 with bad := true }
     reportRel name n base r.1 "ok" "system" ((r.2.2.live.length : Int) - owned) s
+  | ["nfiles", name, per, k, n] =>
+    let r := numFilesGrow per.toNat! k.toNat! (St.init n.toNat!)
+    -- the slots belong to the object (freed with it): the call's ledger is what the object does not name
+    reportRel name n.toNat! 0 r.1 "ok" "system" (if r.1 then 0 else r.2.live.length) r.2
   | ["pmap", name, g, n] =>
     let r := pagemapGet {} g.toNat! (St.init n.toNat!)
     reportRel name n.toNat! 0 r.1 "ok" "system" r.2.live.length r.2
